@@ -447,12 +447,21 @@ class TemplateString(Expression):
         return isinstance(other, TemplateString) and self.template == other.template
 
     def __str__(self) -> str:
-        return repr(
+        quote = _choose_quote(
             "".join(
                 e.value if isinstance(e, StringLiteral) else f"${{{e}}}"
                 for e in self.template
             )
         )
+        # Only literal text is escaped. Interpolated expressions are lexed as
+        # expressions, not as part of the string.
+        parts = "".join(
+            _escape_string(e.value, quote)
+            if isinstance(e, StringLiteral)
+            else f"${{{e}}}"
+            for e in self.template
+        )
+        return f"{quote}{parts}{quote}"
 
     def __hash__(self) -> int:
         return hash(tuple(self.template))
